@@ -77,6 +77,7 @@ func (m *Mux) NewEndpoint(matchFunc MatchFunc) *Endpoint {
 	m.endpoints[endpoint] = matchFunc
 	m.handlePendingPackets(endpoint, matchFunc)
 	m.lock.Unlock()
+	verifYield("mux.ep.registered")
 
 	return endpoint
 }
@@ -188,6 +189,7 @@ func (m *Mux) dispatch(buf []byte) error {
 	}
 
 	m.lock.Unlock()
+	verifYield("mux.dispatch.found")
 	_, err := endpoint.buffer.Write(buf)
 
 	// Expected when bytes are received faster than the endpoint can process them (#2152, #2180)
